@@ -11,6 +11,7 @@ import (
 	"io"
 	"net/http"
 	"net/http/httptest"
+	"os"
 	"sort"
 	"strings"
 	"sync"
@@ -44,6 +45,9 @@ type Client struct {
 	closed  bool
 	nextID  int
 	ver     string
+	out     map[int]bool // outstanding request ids
+	soloOut bool
+	soloID  int
 }
 
 type httpReq struct {
@@ -69,6 +73,7 @@ type World struct {
 	gated   atomic.Bool
 	clients map[string]*Client
 	https   map[string]*httpReq
+	marks   map[string][]Rec  // unfilled frame marks per client
 	cidSym  map[string]string // real cid -> symbolic id
 	symCID  map[string]string
 	pendSym string // symbolic id to bind to the next conn.* subscription
@@ -77,6 +82,7 @@ type World struct {
 	stopped  chan struct{}
 	stopErr  []string
 	stepNo   int
+	dumped   int
 	skipped  int
 	executed int
 	errlog   []string
@@ -120,6 +126,7 @@ func NewWorld(t *testing.T, cfg ScenarioCfg) *World {
 		clients: map[string]*Client{},
 		https:   map[string]*httpReq{},
 		cidSym:  map[string]string{},
+		marks:   map[string][]Rec{},
 		symCID:  map[string]string{},
 	}
 	w.mq = newMockMQ(w)
@@ -177,7 +184,7 @@ func (w *World) watchStop() {
 		if err != nil {
 			s = err.Error()
 		}
-		w.log = append(w.log, Rec{"e": "stopped", "err": s})
+		w.logAdd(Rec{"e": "stopped", "err": s})
 		w.running = false
 		w.mu.Unlock()
 	}()
@@ -200,6 +207,16 @@ func (w *World) note(kind string, kv ...interface{}) {
 		r[kv[i].(string)] = kv[i+1]
 	}
 	w.mu.Lock()
+	if kind == "frame" {
+		// placeholder that the frame read by the client is put into, so that
+		// frames appear in the trace at the point where they were written
+		cid, _ := r["cid"].(string)
+		m := Rec{"e": "fmark", "c": w.symOf(cid)}
+		w.logAdd(m)
+		w.marks[m["c"].(string)] = append(w.marks[m["c"].(string)], m)
+		w.mu.Unlock()
+		return
+	}
 	if cid, ok := r["cid"].(string); ok {
 		r["c"] = w.symOf(cid)
 		delete(r, "cid")
@@ -214,7 +231,7 @@ func (w *World) note(kind string, kv ...interface{}) {
 			r["key"] = key(r["n"].(string), q)
 		}
 	}
-	w.log = append(w.log, r)
+	w.logAdd(r)
 	w.mu.Unlock()
 }
 
@@ -249,9 +266,18 @@ func (w *World) leaks(frame []byte) []string {
 	return out
 }
 
+// logAdd appends a record to the trace. w.mu must be held.
+func (w *World) logAdd(r Rec) {
+	w.log = append(w.log, r)
+	if debugTrace && r["e"] != "fmark" && r["e"] != "step" {
+		b, _ := json.Marshal(r)
+		fmt.Fprintln(os.Stderr, string(b))
+	}
+}
+
 func (w *World) add(r Rec) {
 	w.mu.Lock()
-	w.log = append(w.log, r)
+	w.logAdd(r)
 	w.mu.Unlock()
 }
 
@@ -334,7 +360,7 @@ func (w *World) openClient(sym, ver string, hdr http.Header) bool {
 		w.add(Rec{"e": "openfail", "c": sym, "err": err.Error()})
 		return true
 	}
-	c := &Client{sym: sym, ws: ws, ver: ver, nextID: 1}
+	c := &Client{sym: sym, ws: ws, ver: ver, nextID: 1, out: map[int]bool{}}
 	w.mu.Lock()
 	c.cid = w.symCID[sym]
 	w.mu.Unlock()
@@ -370,6 +396,10 @@ func (w *World) openClient(sym, ver string, hdr http.Header) bool {
 		w.mu.Lock()
 		if len(c.inbox) > 0 {
 			c.inbox = c.inbox[1:]
+			if ms := w.marks[sym]; len(ms) > 0 {
+				ms[0]["e"] = "fdrop"
+				w.marks[sym] = ms[1:]
+			}
 		}
 		w.mu.Unlock()
 	}
@@ -438,10 +468,25 @@ func (w *World) drainFrames() {
 		}
 		for _, f := range in {
 			r := w.normFrame(c, f)
-			w.log = append(w.log, r)
+			if r["e"] == "cres" {
+				id, _ := r["id"].(int)
+				delete(c.out, id)
+				if c.soloOut && id == c.soloID {
+					c.soloOut = false
+				}
+			}
+			if ms := w.marks[s]; len(ms) > 0 {
+				m := ms[0]
+				w.marks[s] = ms[1:]
+				for k, v := range r {
+					m[k] = v
+				}
+			} else {
+				w.logAdd(r)
+			}
 		}
 		if eof {
-			w.log = append(w.log, Rec{"e": "sockClosed", "c": s})
+			w.logAdd(Rec{"e": "sockClosed", "c": s})
 		}
 		w.mu.Unlock()
 	}
@@ -455,7 +500,7 @@ func (w *World) drainFrames() {
 		w.mu.Lock()
 		if h.done && !h.seen {
 			h.seen = true
-			w.log = append(w.log, w.normHTTP(h))
+			w.logAdd(w.normHTTP(h))
 		}
 		w.mu.Unlock()
 	}
@@ -482,7 +527,7 @@ func (w *World) httpDo(sym, method, path string, body string, hdr map[string]str
 	w.https[sym] = h
 	w.mu.Lock()
 	w.pendSym = sym
-	w.log = append(w.log, Rec{"e": "http", "c": sym, "method": method, "path": path})
+	w.logAdd(Rec{"e": "http", "c": sym, "method": method, "path": path})
 	w.mu.Unlock()
 	go func() {
 		w.svc.ServeHTTP(h.rr, req)
@@ -553,7 +598,14 @@ func (w *World) Teardown() {
 func (w *World) Log() []Rec {
 	w.mu.Lock()
 	defer w.mu.Unlock()
-	return append([]Rec{}, w.log...)
+	out := make([]Rec, 0, len(w.log))
+	for _, r := range w.log {
+		if r["e"] == "fmark" || r["e"] == "fdrop" {
+			continue
+		}
+		out = append(out, r)
+	}
+	return out
 }
 
 func mustJSON(v any) []byte {
